@@ -36,6 +36,12 @@ CLAIMED = {
    text="Proof: Json/Model.v mirrors json_to_js_value_with_guard (with canonical property keys), js_value_to_json_with_visited on trees and on heaps with identity (visited = objects on the current path). Proved for all documents without duplicate keys: to_json (to_js d) = d (c16_host_roundtrip); every member is reachable by script member access incl. integer-like keys (c16_script_sees_document); key_string (canon s) = s for every string (c16_key_roundtrip); for every heap and value, cyclic or not, serialisation terminates within heap-size fuel, so cycles yield the error and never a loop (c16_stringify_total); the pinned keying is refuted by witness. Tie on every run: generated documents (escapes, non-BMP, integer-like keys, boundary numbers, deep/wide extremes) through create_from_json -> script member access -> js_value_to_json, JSON.parse/JSON.stringify with nine indent arguments, api::get_property, under three GC thresholds; random value graphs with sharing and cycles against the specification, node-free (Python json as text oracle); the model is evaluated on the same documents/graphs inside Coq.",
    note="Trusted: Coq kernel + vm_compute; serde_json text<->tree (oracle); Python json module for reading results; Rust harness. Not modelled: number text formatting inside JSON (C15), toJSON/getters/replacer, top-level undefined.",
    design_ref="DESIGN.md §5 C16"),
+ "C08": dict(
+   engine="Host",
+   technique="Coq proof (ledger invariant over all programs of the ledger-event language and all host histories: at-most-once hand-over, payload intact, fresh increasing ids; Suspended empties the queue and leaves work; answered orders resume) + trace correspondence of compiled TypeScript programs under scripted hosts with the extracted model; the property's statements evaluated on the implementation's trace",
+   text="Proof: Host/Ledger.v mirrors order_syscall, cancel/getOrderId, fulfill_orders, step's resume logic and the mem::take of pending/cancelled on every Suspended. Proved unbounded over programs and host action sequences: reported ++ queued is an order-preserving duplicate-free sub-sequence of the orders created with strictly increasing ids (c08_orders_reported_once); every Suspended hands over the whole queue and leaves an outstanding order or a non-empty batch (c08_suspended_has_work); once the awaited order is answered the next step consumes the answer and progresses, an unhandled error answer surfaces as an error (c08_answered_order_resumes); known findings O1/O2 are refuted by witness. Tie: corpus + exhaustive programs (<=3/4 events) x 4 hosts + random programs (<=6 orders) x random hosts with subsets, batching, extra steps, unknown/duplicate ids and error answers, each compiled to TypeScript over tsrun:host and replayed on the real interpreter under three GC thresholds; full StepResult trace equality with the model.",
+   note="Trusted: Coq kernel; extraction + OCaml driver; Rust harness (scripted host); the event-language-to-TypeScript compiler in lib/c08.py. Partial: promise combinators over host promises (all/race/any/allSettled) and the wait graph are not in the model.",
+   design_ref="DESIGN.md §5 C08"),
 }
 
 NOT_YET = "not claimed yet in this revision: its model/theorem pair is not built; see DESIGN.md §5 and §8 (build order)"
